@@ -548,7 +548,7 @@ def _pend_tuple(s: dict):
     return (s["count"], float(np.min(p)) if len(p) else None, float(np.max(p)) if len(p) else None)
 
 
-def _check_table(kind, acc, rel, post, required, optional, tagprefix):
+def _check_table(kind, acc, rel, post, required, optional):
     if not acc.true(rel + ":has-table", post["has"]):
         return
     ok, over = O.match_abscissae(post["pts"], required, optional)
@@ -571,7 +571,7 @@ def _adaptive_after_direct(kind, acc, region, pre, post, xdirect):
                                      int(0.2 * N0) if pre["has"] else N0 // 2, int(0.2 * N0) if pre["has"] else N0 // 2)
         if len(req) < 2 or not np.all(np.diff(req) > 0):
             acc.tags.add("adaptive-trigger-degenerate")
-        _check_table(kind, acc, f"{region}:adaptive-table", post, req, opt, "adaptive")
+        _check_table(kind, acc, f"{region}:adaptive-table", post, req, opt)
         acc.true(f"{region}:pending", post["count"] == 0 and len(post["pend"]) == 0, got=_pend_tuple(post), want=(0, None, None))
     else:
         acc.true(f"{region}:pending", _pend_tuple(post) == (p["count"], p["min"], p["max"]), got=_pend_tuple(post),
@@ -693,11 +693,16 @@ def check(kind: str, pre: dict, spec: dict, out, post: dict) -> Acc:
         else:
             req, opt = O.expected_extend(kind, pre["pts"] if pre["has"] else None, *spec["args"])
             full = None
-        _check_table(kind, acc, "abscissae==expected", post, req, opt, t)
+        _check_table(kind, acc, "abscissae==expected", post, req, opt)
         if t == "nt" and len(req) < full:
             acc.tags.add("rows-dropped-newtable")
         if t == "xt":
             acc.tags.add("extend-" + ("table" if pre["has"] else "notable"))
+            if pre["has"]:
+                nmin, nmax, cmin, cmax = spec["args"]
+                full = (cmin if (nmin < pre["rmin"] and cmin > 0) else 0) + (cmax if (nmax > pre["rmax"] and cmax > 0) else 0)
+                if len(req) - len(pre["pts"]) < full:
+                    acc.tags.add("rows-dropped-extend")
             if pre["has"] and post["has"]:
                 acc.true("old-rows-kept", np.all(np.isin(pre["pts"], post["pts"])))
     elif t == "sc":
@@ -888,7 +893,14 @@ def explore(kind: str, init: str, pair, depth: int, lattice: str = "A") -> dict:
             nd = digest(post)
             clean = nd == dg
             ok = True if clean else inv(post, nd, name, pre, nh)
-            outcomes[opkind(name)].add("viol" if (acc.viol or not ok) else ("exc" if any(t.startswith("exception:") for t in acc.tags) else "ok"))
+            # distinct observed outcomes per operation kind (a single outcome from many executions would be vacuous)
+            if acc.viol or not ok:
+                label = "violation"
+            elif any(t.startswith("exception:") for t in acc.tags):
+                label = "raised-as-prescribed"
+            else:
+                label = "ok:state-unchanged" if clean else ("ok:table-changed" if not _same_table(pre, post) else "ok:modes/counters-changed")
+            outcomes[opkind(name)].add(label)
             if nd not in seen:
                 seen[nd] = nh
                 if not ok:
